@@ -106,6 +106,7 @@ PROPS = {
              "the same script executed on Lut and on LutN, events compared field by field by the trace specification; "
              "conversions checked against the specification",
              phases=[{"gen": "C10a", "runs": [("checked", "lut"), ("checked", "lutn")], "validate": [(0, 1)]},
+                     {"gen": "C10s", "runs": [("checked", "lut"), ("checked", "lutn")], "validate": [(0, 1)]},
                      {"gen": "C10b", "runs": [("checked", "lut")], "validate": [(0, None)]}],
              count_all=True),
     "C11": P(CTORS, mc=KMC(["ctors"]), machine_ops=["zero", "one", "parity", "majority", "nth_var", "threshold", "equals"], rule="all named constructors, n = 0..14, all i < n, k in 0..n+2 and 63, 64, 65, 2^32, usize::MAX, "
